@@ -69,6 +69,13 @@ pub mod verif_trace {
 
     thread_local! {
         static SINK: RefCell<Option<Vec<Ev>>> = RefCell::new(None);
+        static FUEL: std::cell::Cell<u64> = std::cell::Cell::new(u64::MAX);
+    }
+
+    /// Allow at most `n` further events on this thread (`u64::MAX`: unlimited); the event after
+    /// the last allowed one panics, so that a loop which does not progress is cut deterministically.
+    pub fn set_fuel(n: u64) {
+        FUEL.with(|f| f.set(n));
     }
 
     pub fn start() {
@@ -80,6 +87,14 @@ pub mod verif_trace {
     }
 
     pub(crate) fn emit(op: Op, a: [u32; 5]) {
+        FUEL.with(|f| match f.get() {
+            u64::MAX => {}
+            0 => {
+                f.set(u64::MAX);
+                panic!("glass_easel_verif: event fuel exhausted");
+            }
+            n => f.set(n - 1),
+        });
         SINK.with(|s| {
             if let Some(v) = s.borrow_mut().as_mut() {
                 v.push(Ev { op, a });
